@@ -1,1 +1,340 @@
-// cfg(kani) child module of src/.../executor.rs (see DESIGN.md §1.1)
+// cfg(kani) child module of src/executor.rs: FileExecutor::execute's reading loop (real, with the real
+// std::io::Lines) over the I/O shim reader; the engine below it is a stub that logs what it is given.
+// C12 (every line exactly once, in order) and C19 (interrupt).
+#![allow(dead_code, unused_imports, unused_macros, static_mut_refs)]
+
+use std::fs::File;
+use std::mem::ManuallyDrop;
+use std::os::unix::io::FromRawFd;
+use std::sync::atomic::{AtomicBool, Ordering};
+use std::sync::Arc;
+
+use crate::data_model::Tables;
+use crate::execution::execution_engine::{ExecutionConfig, ExecutionEngine, ExecutionOutput};
+use crate::execution::{ExecutionResult, ResultRow};
+use crate::model::{AggregateStatement, SelectStatement, Statement};
+use crate::verif_kani::shim::io::{BufReader, SymFile, FILES, MAX_FILE, READ_BUDGET, READ_CALLS};
+
+use super::{DisplayOptions, ExecutionStatistics, FileExecutor, OutputFormat, OutputPrinter, Printer};
+
+const MAX_LOG: usize = 6;
+static mut LOG_LEN: usize = 0;
+static mut LOG_LINE_LEN: [usize; MAX_LOG] = [0; MAX_LOG];
+static mut LOG_LINE: [[u8; 3]; MAX_LOG] = [[0; 3]; MAX_LOG];
+static mut LOG_OVERFLOW: bool = false;
+static mut RESULT_CALLS: usize = 0;
+static mut RESULT_AT: usize = 0;          // number of lines logged when the final result was requested
+static mut RUNNING: Option<Arc<AtomicBool>> = None;   // the executor's `running` flag (shared with the "user")
+static mut STOP_AT: usize = 0;            // the user interrupts once STOP_AT lines have been consumed (0 = before the run)
+static mut LINES_AFTER_STOP: usize = 0;   // lines handed to the engine while the flag was already cleared
+
+/// ExecutionEngine::execute: log the line (update calls) or note the final-result call.
+fn stub_engine_execute<'a>(_this: &mut ExecutionEngine<'a>, line: String, config: &ExecutionConfig) -> ExecutionResult<ExecutionOutput> where 'a: 'a {
+    let line = ManuallyDrop::new(line);
+    unsafe {
+        if config.update {
+            if let Some(flag) = RUNNING.as_ref() {
+                if !flag.load(Ordering::SeqCst) { LINES_AFTER_STOP += 1; }
+            }
+            if LOG_LEN < MAX_LOG {
+                let bytes = line.as_bytes();
+                LOG_LINE_LEN[LOG_LEN] = bytes.len();
+                if bytes.len() > 0 { LOG_LINE[LOG_LEN][0] = bytes[0]; }
+                if bytes.len() > 1 { LOG_LINE[LOG_LEN][1] = bytes[1]; }
+                if bytes.len() > 2 { LOG_LINE[LOG_LEN][2] = bytes[2]; }
+                LOG_LEN += 1;
+            } else {
+                LOG_OVERFLOW = true;
+            }
+            // the interrupt arrives while / right after this line is processed
+            if LOG_LEN == STOP_AT {
+                if let Some(flag) = RUNNING.as_ref() { flag.store(false, Ordering::SeqCst); }
+            }
+        } else {
+            RESULT_CALLS += 1;
+            RESULT_AT = LOG_LEN;
+        }
+    }
+    Ok(ExecutionOutput::empty())
+}
+
+struct NullPrinter;
+impl Printer for NullPrinter {
+    fn println(&mut self, _line: &str) {}
+}
+
+fn select_statement() -> ManuallyDrop<Statement> {
+    ManuallyDrop::new(Statement::Select(SelectStatement { projections: Vec::new(), from: String::new(), filename: None, filter: None, join: None, limit: None, distinct: false }))
+}
+
+fn aggregate_statement() -> ManuallyDrop<Statement> {
+    ManuallyDrop::new(Statement::Aggregate(AggregateStatement { aggregates: Vec::new(), from: String::new(), filename: None, filter: None, group_by: None, having: None, join: None, limit: None, distinct: false }))
+}
+
+fn reset_log() {
+    unsafe {
+        LOG_LEN = 0; LOG_OVERFLOW = false; RESULT_CALLS = 0; RESULT_AT = 0; LINES_AFTER_STOP = 0;
+        READ_BUDGET = 100; READ_CALLS = 0;
+    }
+}
+
+fn any_content(allow_cr: bool) -> [u8; MAX_FILE] {
+    let c: [u8; MAX_FILE] = kani::any();
+    kani::assume((c[0] == b'a' || c[0] == b'\n' || (allow_cr && c[0] == b'\r'))
+        && (c[1] == b'a' || c[1] == b'\n' || (allow_cr && c[1] == b'\r'))
+        && (c[2] == b'a' || c[2] == b'\n'));
+    c
+}
+
+/// reference: the k-th line of content[..len] per the BufRead::lines contract (split at \n, one trailing \r
+/// stripped, a final unterminated non-empty piece is a line too) -> (start, end)
+fn ref_line(content: &[u8; MAX_FILE], len: usize, k: usize) -> Option<(usize, usize)> {
+    let mut start = 0;
+    let mut seen = 0;
+    let mut i = 0;
+    while i < MAX_FILE {
+        if i < len && content[i] == b'\n' {
+            if seen == k {
+                let end = if i > start && content[i - 1] == b'\r' { i - 1 } else { i };
+                return Some((start, end));
+            }
+            seen += 1;
+            start = i + 1;
+        }
+        i += 1;
+    }
+    if start < len && seen == k { Some((start, len)) } else { None }
+}
+
+fn ref_count(content: &[u8; MAX_FILE], len: usize) -> usize {
+    let mut n = 0;
+    if ref_line(content, len, 0).is_some() { n += 1; }
+    if ref_line(content, len, 1).is_some() { n += 1; }
+    if ref_line(content, len, 2).is_some() { n += 1; }
+    n
+}
+
+fn logged_is(i: usize, content: &[u8; MAX_FILE], range: (usize, usize)) -> bool {
+    unsafe {
+        let (a, b) = range;
+        if LOG_LINE_LEN[i] != b - a { return false; }
+        let mut k = 0;
+        while k < 3 {
+            if k < b - a && LOG_LINE[i][k] != content[a + k] { return false; }
+            k += 1;
+        }
+        true
+    }
+}
+
+macro_rules! executor_proof {
+    ($(#[$m:meta])* fn $name:ident() $body:block) => {
+        #[kani::proof]
+        #[kani::stub(alloc::fmt::format, crate::verif_kani::common::stub_format)]
+        #[kani::stub(regex::Regex::new, crate::verif_kani::common::stub_regex_new)]
+        #[kani::stub(crate::execution::execution_engine::ExecutionEngine::execute, stub_engine_execute)]
+        $(#[$m])*
+        fn $name() $body
+    };
+}
+
+fn make_executor<'a>(engine: ExecutionEngine<'a>, two_files: bool) -> ManuallyDrop<FileExecutor<'a, NullPrinter>> {
+    let mut readers = Vec::new();
+    readers.push(BufReader::new(unsafe { File::from_raw_fd(3) }));
+    if two_files { readers.push(BufReader::new(unsafe { File::from_raw_fd(4) })); }
+    let running = Arc::new(AtomicBool::new(unsafe { STOP_AT } != 0));
+    unsafe { RUNNING = Some(running.clone()); }
+    ManuallyDrop::new(FileExecutor {
+        running,
+        readers,
+        execution_engine: engine,
+        display_options: DisplayOptions { output_format: OutputFormat::Text, single_result: false, print_result: true },
+        statistics: ExecutionStatistics { execution_start: unsafe { std::mem::zeroed() }, ingested_bytes: 0, total_lines: 0, total_result_rows: 0 },
+        output_printer: OutputPrinter::with_printer(NullPrinter, OutputFormat::Text),
+    })
+}
+
+// ------------------------------------------------------------------------------------------------
+// C12: two files of <= 3 bytes each over {a, \n, \r}: the engine is given exactly the lines of file 1
+// then the lines of file 2, in order, byte for byte (CRLF stripped, final unterminated line included).
+executor_proof! {
+    #[kani::unwind(6)]
+    fn c12_two_files_every_line_once() {
+        let c0 = any_content(true);
+        let c1 = any_content(false);
+        let l0: usize = kani::any();
+        let l1: usize = kani::any();
+        kani::assume(l0 <= 3 && l1 <= 2);
+        reset_log();
+        unsafe {
+            STOP_AT = 1000;
+            FILES[0] = SymFile { content: c0, len: l0, visible: l0, pos: 0, growing: false };
+            FILES[1] = SymFile { content: c1, len: l1, visible: l1, pos: 0, growing: false };
+        }
+        let tables = ManuallyDrop::new(Tables::new());
+        let statement = select_statement();
+        let engine = ExecutionEngine::new(&tables, &statement);
+        let mut executor = make_executor(engine, true);
+        let result = ManuallyDrop::new(executor.execute());
+        assert!(result.is_ok(), "C12 a batch run over readable files succeeds");
+        let n0 = ref_count(&c0, l0);
+        let n1 = ref_count(&c1, l1);
+        unsafe {
+            assert!(!LOG_OVERFLOW && LOG_LEN == n0 + n1, "C12 every line of every file reaches the query exactly once");
+            if n0 > 0 { assert!(logged_is(0, &c0, ref_line(&c0, l0, 0).unwrap()), "C12 lines arrive in file order, byte for byte"); }
+            if n0 > 1 { assert!(logged_is(1, &c0, ref_line(&c0, l0, 1).unwrap()), "C12 lines arrive in file order, byte for byte"); }
+            if n0 > 2 { assert!(logged_is(2, &c0, ref_line(&c0, l0, 2).unwrap()), "C12 lines arrive in file order, byte for byte"); }
+            if n1 > 0 { assert!(logged_is(n0, &c1, ref_line(&c1, l1, 0).unwrap()), "C12 the second file's lines follow the first file's, byte for byte"); }
+            if n1 > 1 { assert!(logged_is(n0 + 1, &c1, ref_line(&c1, l1, 1).unwrap()), "C12 the second file's lines follow the first file's, byte for byte"); }
+            assert!(executor.statistics.total_lines == (n0 + n1) as u64, "C12 the line counter counts every line once");
+        }
+        kani::cover!(n0 == 2 && n1 == 1, "c12: 2 + 1 lines reachable");
+        kani::cover!(l0 == 3 && c0[2] != b'\n' && n1 >= 1, "c12: first file without final newline reachable");
+    }
+}
+
+// ------------------------------------------------------------------------------------------------
+// C19: the flag is cleared at an arbitrary point of the schedule: no line is consumed afterwards, no error,
+// and an aggregate statement still gets exactly one final-result call over the lines consumed.
+macro_rules! interrupt_harness {
+    ($name:ident, $aggregate:expr) => {
+        executor_proof! {
+            #[kani::unwind(6)]
+            fn $name() {
+                let c0 = any_content(false);
+                let c1 = any_content(false);
+                let l0: usize = kani::any();
+                let l1: usize = kani::any();
+                kani::assume(l0 <= 3 && l1 <= 2);
+                reset_log();
+                let stop_at: usize = kani::any();
+                kani::assume(stop_at <= 6);
+                unsafe {
+                    STOP_AT = stop_at;
+                    FILES[0] = SymFile { content: c0, len: l0, visible: l0, pos: 0, growing: false };
+                    FILES[1] = SymFile { content: c1, len: l1, visible: l1, pos: 0, growing: false };
+                }
+                let tables = ManuallyDrop::new(Tables::new());
+                let statement = if $aggregate { aggregate_statement() } else { select_statement() };
+                let engine = ExecutionEngine::new(&tables, &statement);
+                let mut executor = make_executor(engine, true);
+                let result = ManuallyDrop::new(executor.execute());
+                assert!(result.is_ok(), "C19 an interrupted query reports no error");
+                let total = ref_count(&c0, l0) + ref_count(&c1, l1);
+                unsafe {
+                    assert!(LINES_AFTER_STOP == 0, "C19 no input line is consumed after the interrupt");
+                    let expected = if stop_at < total { stop_at } else { total };
+                    assert!(LOG_LEN == expected, "C19 exactly the lines before the interrupt are consumed");
+                    if $aggregate {
+                        assert!(RESULT_CALLS == 1 && RESULT_AT == LOG_LEN, "C19 an interrupted aggregate prints the table for exactly the lines consumed");
+                    } else {
+                        assert!(RESULT_CALLS == 0, "C19 a plain query has no final table");
+                    }
+                }
+                kani::cover!(stop_at == 1 && total >= 3, "c19: interrupt after the first of several lines reachable");
+                kani::cover!(stop_at == 0 && total >= 1, "c19: interrupt before the first line reachable");
+            }
+        }
+    };
+}
+interrupt_harness!(c19_interrupt_select, false);
+interrupt_harness!(c19_interrupt_aggregate, true);
+
+
+// ------------------------------------------------------------------------------------------------
+// C17 - OutputPrinter::print's record skeleton: one println per row, in result order; in CSV one header
+// line before the first record only; the blank separator only after multi-row, non-single results; a lone
+// `input` column prints just the value.  The rendered text of values is cut (Display for Value -> empty),
+// so a record is identified by its length: the names, separators and delimiters around empty values.
+static mut PRINTED: usize = 0;
+static mut PRINTED_LEN: [usize; 8] = [0; 8];
+
+struct LenPrinter;
+impl Printer for LenPrinter {
+    fn println(&mut self, line: &str) {
+        unsafe {
+            if PRINTED < 8 { PRINTED_LEN[PRINTED] = line.len(); }
+            PRINTED += 1;
+        }
+    }
+}
+
+fn one_char_name(c: char) -> String { let mut s = String::new(); s.push(c); s }
+
+fn result_row(rows: usize, first_is_input: bool, cols: usize) -> ManuallyDrop<ResultRow> {
+    use crate::data_model::Row;
+    use crate::model::Value;
+    let mut columns = Vec::new();
+    columns.push(if first_is_input { String::from("input") } else { one_char_name('x') });
+    if cols > 1 { columns.push(one_char_name('y')); }
+    let mut data = Vec::new();
+    let mut i = 0;
+    while i < rows {
+        data.push(if cols > 1 { Row::new(vec![Value::Int(i as i64), Value::Null]) } else { Row::new(vec![Value::Int(i as i64)]) });
+        i += 1;
+    }
+    ManuallyDrop::new(ResultRow { data, columns })
+}
+
+macro_rules! printer_proof {
+    ($(#[$m:meta])* fn $name:ident() $body:block) => {
+        #[kani::proof]
+        #[kani::stub(<crate::model::Value as std::fmt::Display>::fmt, crate::verif_kani::common::stub_value_display)]
+        $(#[$m])*
+        fn $name() $body
+    };
+}
+
+printer_proof! {
+    #[kani::unwind(7)]
+    fn c17_print_text_records() {
+        let rows: usize = kani::any();
+        kani::assume(rows <= 2);
+        let first_is_input: bool = kani::any();
+        let two_cols: bool = kani::any();
+        let single: bool = kani::any();
+        unsafe { PRINTED = 0; PRINTED_LEN = [0; 8]; }
+        let rr = result_row(rows, first_is_input, if two_cols { 2 } else { 1 });
+        let mut printer = ManuallyDrop::new(OutputPrinter::with_printer(LenPrinter, OutputFormat::Text));
+        printer.print(&rr, single);
+        let separator = rows > 1 && !single;
+        unsafe {
+            assert!(PRINTED == rows + separator as usize, "C17 every row is printed exactly once (plus the blank separator after a multi-row table)");
+            // `name: value` pairs joined by ", "; a lone `input` column prints just the value
+            let name_len = if first_is_input { 5 } else { 1 };
+            let expected = if two_cols { (name_len + 2) + 2 + (1 + 2) } else if first_is_input { 0 } else { name_len + 2 };
+            if rows >= 1 { assert!(PRINTED_LEN[0] == expected, "C17 a text record lists name: value pairs in column order (a lone input column prints just the line)"); }
+            if rows >= 2 { assert!(PRINTED_LEN[1] == expected, "C17 a text record lists name: value pairs in column order (a lone input column prints just the line)"); }
+            if separator { assert!(PRINTED_LEN[rows] == 0, "C17 the separator line is blank"); }
+        }
+        kani::cover!(rows == 2 && first_is_input && two_cols, "c17 text: input + second column, two rows reachable");
+        kani::cover!(rows == 1 && first_is_input && !two_cols, "c17 text: lone input reachable");
+    }
+}
+
+printer_proof! {
+    #[kani::unwind(7)]
+    fn c17_print_csv_header_once() {
+        let rows1: usize = kani::any();
+        let rows2: usize = kani::any();
+        kani::assume(rows1 >= 1 && rows1 <= 2 && rows2 <= 2);
+        unsafe { PRINTED = 0; PRINTED_LEN = [0; 8]; }
+        let r1 = result_row(rows1, false, 2);
+        let r2 = result_row(rows2, false, 2);
+        let mut printer = ManuallyDrop::new(OutputPrinter::with_printer(LenPrinter, OutputFormat::CSV(String::from(";"))));
+        printer.print(&r1, true);
+        printer.print(&r2, true);
+        unsafe {
+            assert!(PRINTED == 1 + rows1 + rows2, "C17 CSV: one header line, then one record per row");
+            assert!(PRINTED_LEN[0] == 3, "C17 CSV: the header lists the column names");            // "x;y"
+            assert!(PRINTED_LEN[1] == 1, "C17 CSV: every record has one field per column");        // ";"
+            if rows1 + rows2 >= 2 { assert!(PRINTED_LEN[2] == 1, "C17 CSV: the header is printed once, before the first record only"); }
+            if rows1 + rows2 >= 3 { assert!(PRINTED_LEN[3] == 1, "C17 CSV: the header is printed once, before the first record only"); }
+        }
+        kani::cover!(rows1 == 1 && rows2 == 2, "c17 csv: 1 + 2 rows reachable");
+    }
+}
+
+#[cfg(test)]
+#[path = "/verif/.cache/playback/executor.rs"]
+mod playback_gen;
